@@ -262,7 +262,10 @@ theorem keySchedule_returns (revision keyBits : Nat) (userOk : Bool) :
   simp only []
   by_cases h0 : keyBits / 8 = 0
   · right; rw [if_pos h0]
-  · rw [if_neg h0, userKeySlices_ok, seqU_ok, sliceTo_ok (show min (keyBits / 8) 16 ≤ max (keyBits / 8) 16 by omega), seqU_ok,
+  · rw [if_neg h0]
+    by_cases h32 : keyBits / 8 > 32
+    · right; rw [if_pos h32]
+    rw [if_neg h32, userKeySlices_ok, seqU_ok, sliceTo_ok (show min (keyBits / 8) 16 ≤ max (keyBits / 8) 16 by omega), seqU_ok,
       rc4Key_ok (show 0 < min (keyBits / 8) 16 ∧ min (keyBits / 8) 16 ≤ 256 by omega), seqU_ok]
     cases userOk
     · simp only [Bool.false_eq_true, if_false]
